@@ -404,6 +404,12 @@ def nest_track(F):
             cd = peel(c.get("cond") or {})
             if cd.get("k") == "LetExpr" and any(v == "End" for _, v in pat_variants(cd["pat"])[0]):
                 kinds.append("end")
+            elif cd.get("k") == "Match" and any(any(v == "End" for _, v in pat_variants(a_["pat"])[0]) and "Bool(true)" in str(peel(a_["body"]).get("lit"))
+                                               for a_ in cd.get("arms", [])) and any(x is pops[0] for x in walk(c.get("then") or {})):
+                kinds.append("end")       # `if matches!(payload, Payload::End(..)) { .. }`
+            elif c.get("k") == "Match" and "Payload" in (c.get("scrut_ty") or "") and any(
+                    any(v == "End" for _, v in pat_variants(a_["pat"])[0]) and any(x is pops[0] for x in walk(a_["body"])) for a_ in c.get("arms", [])):
+                kinds.append("end")       # `match payload { Payload::End(..) => { .. } .. }`
             elif any(on_stack(x, ("is_empty",)) for x in walk(c.get("cond") or {})):
                 kinds.append("nonempty")
             elif c.get("k") == "Match" and c.get("src") == "ForLoopDesugar":
